@@ -602,6 +602,79 @@ func archiveOverlapTour(res *core.Result, r *core.RNG) (*sim, error) {
 	return s, nil
 }
 
+// A public file of a few hundred megabytes (a server after some months): the archived copy is still a
+// record-aligned prefix of it.  The file is grown by appending copies of its own last record, the archive
+// is judged on the implementation alone (prefix, alignment), and the file is cut back before shutdown.
+func archiveLargeFileTour(res *core.Result, r *core.RNG, which string) (*sim, error) {
+	s, err := started(res, r, "archive-large-"+which, 100, true, 1000)
+	if err != nil {
+		return s, err
+	}
+	w := s.w
+	d := s.a.Devices[0]
+	s.send(d, 100, 300)
+	s.send(d, 99, 310)
+	name, recLen := "equipment-reports.dat", 80
+	if which == "stats" {
+		w.SetNow(3300)
+		s.rotateTick()
+		name = "allDeviceStats.dat"
+	}
+	path := filepath.Join(w.Dir, name)
+	orig, err := os.ReadFile(path)
+	if err != nil || len(orig) < recLen {
+		return s, nil
+	}
+	if which == "stats" {
+		recLen = len(orig) // one weekly record
+	}
+	term := w.CoqCase()
+	s.res.Case(map[string]interface{}{"ops": w.Desc}, term, true)
+	s.closedTerm = term
+	s.alive = false
+	rec := orig[len(orig)-recLen:]
+	chunk := bytes.Repeat(rec, 1+(4<<20)/recLen)
+	f, err := os.OpenFile(path, os.O_WRONLY|os.O_APPEND, 0644)
+	if err != nil {
+		return s, nil
+	}
+	total := len(orig)
+	for total < 300<<20 {
+		if _, err := f.Write(chunk); err != nil {
+			break
+		}
+		total += len(chunk)
+	}
+	f.Close()
+	defer os.Truncate(path, int64(len(orig)))
+	window := time.Duration(server.VerifConsts()["apiArchiveRateMs"])*time.Millisecond + 10*time.Millisecond
+	time.Sleep(window)
+	rr := w.Raw("GET", "/api/v1/archive", nil)
+	if rr.Status == 429 {
+		time.Sleep(window)
+		rr = w.Raw("GET", "/api/v1/archive", nil)
+	}
+	res.Count("archive.large-file:" + which)
+	if rr.Panicked || rr.Status != 200 {
+		s.fail(fmt.Sprintf("archive request with %s grown to %d bytes fails (status %d, panic %v)", name, total, rr.Status, rr.Panicked), "c14-archive-error")
+		return s, nil
+	}
+	files, _, err := unzip(rr.Body)
+	if err != nil {
+		s.fail("archive is not a readable zip: "+err.Error(), "c14-zip")
+		return s, nil
+	}
+	fin, _ := os.ReadFile(path)
+	arch := files[name]
+	if !bytes.HasPrefix(fin, arch) {
+		s.fail(fmt.Sprintf("archived %s (%d bytes) is not a prefix of the file on disk (%d bytes)", name, len(arch), len(fin)), "c14-prefix:"+name)
+	} else if len(arch)%recLen != 0 {
+		s.fail(fmt.Sprintf("archived %s has %d bytes of the %d on disk: %d whole records of %d bytes and a torn record of %d bytes", name, len(arch), len(fin), len(arch)/recLen, recLen, len(arch)%recLen), "c14-record-aligned:"+name)
+	}
+	res.Extra["archive_large_file_bytes_"+which] = len(arch)
+	return s, nil
+}
+
 func archiveWorker(res *core.Result, r *core.RNG, tier, out string) error {
 	var items []string
 	n := 1
@@ -633,7 +706,16 @@ func archiveWorker(res *core.Result, r *core.RNG, tier, out string) error {
 		}
 		sa.finish(&items)
 	}
-	res.Required = []string{"archive.request", "archive.tour", "archive.limiter-sliding", "archive.overlapping-downloads", "archive.admission-unregistered", "archive.admission-first-burst"}
+	for k, which := range []string{"reports", "stats"} {
+		if core.Shard == (2+k)%core.Shards {
+			sl, err := archiveLargeFileTour(res, r.Fork(), which)
+			if err != nil {
+				return err
+			}
+			sl.finish(&items)
+		}
+	}
+	res.Required = []string{"archive.request", "archive.tour", "archive.large-file:reports", "archive.large-file:stats", "archive.limiter-sliding", "archive.overlapping-downloads", "archive.admission-unregistered", "archive.admission-first-burst"}
 	res.Rule = "every (gap between two archived files x write burst {new device + first report, registration + first device, rotation}) combination, quiet archives, request bursts against the limiter (burst and sliding-window pattern), pairs of overlapping downloads right after a refused one; zip opened with archive/zip and checked with the real Verify; non-trivial = archive taken with a burst in a gap; distinct by full history"
 	return writeServerCases(res, out, "archive", items)
 }
